@@ -254,6 +254,11 @@ def run(ctx):
     ps = ml.e2_plans(ctx, menu, MONS, conform=False)
     ps += ml.e2_plans(ctx, [("sc_hi", [L], 0), ("sc_lo", [L], 0), ("sc_mix", [L], 0), ("sc_hi1", [L], 0)],
                       MONS, entry="front", conform=False, inits=block_inits)
+    def spread_inits(d):
+        T, K = d.Tp, d.K
+        return [tuple(i % K for i in range(T)), tuple(min(K - 1, (i * K) // T) for i in range(T)),
+                tuple((K - 1) - (i % K) for i in range(T))]
+    ps += ml.e2_plans(ctx, [("k4col", [2, 3], 0), ("k4col9", [2, 3], 0)], MONS, entry="fit", conform=False, inits=spread_inits)
     ml.explore(ctx, ps)
     ctx.cov["exhaustive"] = True
     ctx.cov["scale_grid"] = [[N, W, a] for (N, W, a) in grid(ctx.tier)]
